@@ -9,7 +9,10 @@ CONSTANTS
   LegacyConcurrentWaits = FALSE
   LegacyStartedFirst = FALSE
   LegacyHandleClose = FALSE
+  MutUnregBeforeDone = FALSE
+  MutIsClosedInRunHandlers = FALSE
+  MutSkipStoppedWhenClosing = FALSE
   LegacySecondCloseNil = FALSE
-INVARIANTS Graceful ErrorOnlyOnTimeout NoPanic RunAfterClose SubClosedAtEnd DroppedNotHandled
-PROPERTIES AllReturn
+INVARIANTS NoStuck Graceful ErrorOnlyOnTimeout NoPanic RunAfterClose SubClosedAtEnd DroppedNotHandled
+PROPERTIES AllReturn StoppedCloses
 CHECK_DEADLOCK FALSE
